@@ -179,7 +179,10 @@ static int cmd_shrink(int argc, char **argv) {
         for (size_t c = 0; c < p.conns.size(); c++)
             for (size_t i = p.conns[c].xchg.size(); i-- > 0 && g_tests < max_tests;) {
                 if (p.conns[c].xchg.size() <= 1) break;
+                long ci = p.cfg.get("c16_connect_idx", -1);
+                if (ci >= 0 && (long) i == ci) continue;                  // the exchange the scenario is about stays
                 Plan q = p; drop_exchange(q, c, i);
+                if (ci >= 0 && (long) i < ci) q.cfg.set("c16_connect_idx", ci - 1);
                 if (still_fails(q)) { p = q; progress = true; }
             }
         // 2. ddmin over the op list
@@ -217,7 +220,7 @@ static int cmd_shrink(int argc, char **argv) {
         for (size_t i = p.cbs.size(); i-- > 0 && g_tests < max_tests;) { Plan q = p; q.cbs.erase(q.cbs.begin() + (long) i); if (still_fails(q)) { p = q; progress = true; } }
         {
             std::vector<std::string> keys; for (auto &kv : p.cfg.kv) keys.push_back(kv.first);
-            for (auto &k : keys) { if (g_tests >= max_tests) break; if (k == "wellformed" || k == "skeleton" || k == "scn") continue; Plan q = p; q.cfg.kv.erase(k); if (still_fails(q)) { p = q; progress = true; } }
+            for (auto &k : keys) { if (g_tests >= max_tests) break; if (k == "wellformed" || k == "skeleton" || k == "scn" || k.compare(0, 4, "c16_") == 0 || k.compare(0, 4, "c11_") == 0) continue; Plan q = p; q.cfg.kv.erase(k); if (still_fails(q)) { p = q; progress = true; } }
         }
         // 5. drop unused tail bytes of the streams, then try shortening from the end
         for (size_t c = 0; !domain && c < p.conns.size(); c++) for (int d = 0; d < 2; d++) {
